@@ -20,7 +20,7 @@ func (f *Frame) call(ins ssa.Instruction, c *ssa.CallCommon, st *State) (Value, 
 	}
 	// may-panic call sites named by the contract under verification: fork before the call
 	// (the callee panics before it has any effect visible here)
-	if f.mayPanicSite(ins) && !f.inDeferred {
+	if f.mayPanicSite(ins) && !f.runningDeferred() {
 		pk := f.u.sc.fresh("panics", SBool)
 		pst := st.clone()
 		pst.reach = f.u.freshDef("reach", mkAnd(st.reach, pk))
@@ -101,6 +101,11 @@ func (f *Frame) assumeWF(vals []Value, st *State) {
 func (f *Frame) callStatic(ins ssa.Instruction, callee *ssa.Function, binds []Value, args []Value, st *State) Value {
 	u := f.u
 	resT := callee.Signature.Results()
+	if callee.Pkg != nil && callee.Pkg.Pkg.Path() == "sync/atomic" {
+		if v, ok := f.atomicOp(ins, callee, args, st); ok {
+			return v
+		}
+	}
 	if fc := u.eng.contractOf(callee); fc != nil && !(fc.Inline && len(callee.Blocks) > 0) {
 		return f.callByContract(ins, fc, callee, args, st)
 	}
@@ -1200,10 +1205,9 @@ func (f *Frame) siteHook(kind string, ins ssa.Instruction, st *State, extra map[
 		return
 	}
 	if f != root {
-		if kind != "call" && kind != "after" {
-			return
+		if kind != "return" {
+			root.siteFromInlined(f, kind, ins, st, extra)
 		}
-		root.siteFromInlined(f, kind, ins, st, extra)
 		return
 	}
 	for _, s := range f.fc.Sites {
@@ -1592,4 +1596,65 @@ func (root *Frame) siteFromInlined(sub *Frame, kind string, ins ssa.Instruction,
 			}
 		}
 	}
+}
+
+// atomicOp models sync/atomic functions on 32/64-bit integers as plain reads and writes of
+// the addressed cell (every function is verified with sequential semantics, A-seq).
+func (f *Frame) atomicOp(ins ssa.Instruction, callee *ssa.Function, args []Value, st *State) (Value, bool) {
+	name := callee.Name()
+	var kind string
+	for _, k := range []string{"Add", "Load", "Store", "CompareAndSwap", "Swap"} {
+		if strings.HasPrefix(name, k) {
+			kind = k
+		}
+	}
+	if kind == "" || len(args) == 0 || len(callee.Params) == 0 {
+		return Value{}, false
+	}
+	pt, ok := callee.Params[0].Type().Underlying().(*types.Pointer)
+	if !ok {
+		return Value{}, false
+	}
+	if _, _, isInt := isIntegerType(pt.Elem()); !isInt {
+		return Value{}, false
+	}
+	a := f.addrOf(args[0], pt.Elem())
+	if a == nil {
+		return Value{}, false
+	}
+	if args[0].Addr == nil {
+		f.safety("deref", ins, "nil pointer passed to sync/atomic", st, mkNot(mkEq(args[0].T, intConst(0))))
+	}
+	cur := f.load(st, a)
+	switch kind {
+	case "Load":
+		return Value{T: f.u.freshDef("aload", cur), Ty: pt.Elem()}, true
+	case "Store":
+		f.store(st, a, f.term(args[1]))
+		return Value{}, true
+	case "Add":
+		nv := f.u.freshDef("aadd", mk(cur.Sort, "bvadd", cur, f.term(args[1])))
+		f.store(st, a, nv)
+		return Value{T: nv, Ty: pt.Elem()}, true
+	case "Swap":
+		old := f.u.freshDef("aswap", cur)
+		f.store(st, a, f.term(args[1]))
+		return Value{T: old, Ty: pt.Elem()}, true
+	case "CompareAndSwap":
+		eq := f.u.freshDef("acas", mkEq(cur, f.term(args[1])))
+		f.store(st, a, mkIte(eq, f.term(args[2]), cur))
+		return Value{T: eq, Ty: types.Typ[types.Bool]}, true
+	}
+	return Value{}, false
+}
+
+// runningDeferred: this frame or one of its callers is currently executing deferred calls
+// (panics raised while unwinding are not modelled: A-defer-nopanic).
+func (f *Frame) runningDeferred() bool {
+	for fr := f; fr != nil; fr = fr.parent {
+		if fr.inDeferred {
+			return true
+		}
+	}
+	return false
 }
